@@ -49,7 +49,16 @@ def watchWorld (files : List (String × List Variant)) : Session.World String Na
           | .diags _ => "diags"
           | .nofuel => "model-nofuel" }
 
+/-- a history over a project with a value module (`cfg_v.ts`, used through its default export and `typeof`) is outside the
+module model: not tied -/
+def hasValueModule : Sexp → Bool
+  | .list (.atom "files" :: fs) => fs.any fun f => match f with
+    | .list (.atom "file" :: .str n :: _) => n == "cfg_v.ts"
+    | _ => false
+  | _ => false
+
 def watchOp (filesS opsS : Sexp) : Sexp :=
+  if hasValueModule filesS then .atom "untied" else
   match decWatchFiles filesS, decOps opsS with
   | some files, some ops =>
     let w := watchWorld files
